@@ -688,8 +688,20 @@ class Context:
 
         def parse_fn(*args):
             text = to_string(args[0]) if args else ""
+
+            def reject_constant(name):
+                # NaN, Infinity and -Infinity are extensions of the host decoder
+                raise json.JSONDecodeError(f"Unexpected token {name}", text, 0)
+
+            def parse_int(digits):
+                # JSON numbers are doubles: -0 keeps its sign, huge integers round
+                x = float(digits)
+                return int(x) if x != 0 and abs(x) <= 2**53 else x
+
             try:
-                py_value = json.loads(text)
+                py_value = json.loads(
+                    text, parse_constant=reject_constant, parse_int=parse_int
+                )
                 return ctx._to_js(py_value)
             except json.JSONDecodeError as e:
                 from .errors import JSSyntaxError
